@@ -176,7 +176,11 @@ static int matrix_addrow (
   reset_colindex (
 	EGLPNUM_TYPENAME_lpinfo * lp),
   reset_rowindex (
-	EGLPNUM_TYPENAME_lpinfo * lp);
+	EGLPNUM_TYPENAME_lpinfo * lp),
+  index_list_repeats (
+	int cnt,
+	int *ind,
+	int *repeated);
 
 int EGLPNUM_TYPENAME_ILLlib_optimize (
 	EGLPNUM_TYPENAME_lpinfo * lp,
@@ -1239,6 +1243,15 @@ int EGLPNUM_TYPENAME_ILLlib_addrow (
 			rval = 1;
 			ILL_CLEANUP;
 		}
+	}
+
+	rval = index_list_repeats (cnt, ind, &hit);
+	CHECKRVALG (rval, CLEANUP);
+	if (hit)
+	{
+		QSlog("EGLPNUM_TYPENAME_ILLlib_addrow called with a column listed twice");
+		rval = 1;
+		ILL_CLEANUP;
 	}
 
 	if (qslp->rA)
@@ -2342,6 +2355,15 @@ int EGLPNUM_TYPENAME_ILLlib_addcol (
 		}
 	}
 
+	rval = index_list_repeats (cnt, ind, &hit);
+	CHECKRVALG (rval, CLEANUP);
+	if (hit)
+	{
+		QSlog("EGLPNUM_TYPENAME_ILLlib_addcol called with a row listed twice");
+		rval = 1;
+		ILL_CLEANUP;
+	}
+
 	if (qslp->rA)
 	{															/* After an addcol call, needs to be updated */
 		EGLPNUM_TYPENAME_ILLlp_rows_clear (qslp->rA);
@@ -2557,6 +2579,42 @@ CLEANUP:
 	}
 	EGLPNUM_TYPENAME_EGlpNumClearVar (l);
 	EGLPNUM_TYPENAME_EGlpNumClearVar (u);
+	EG_RETURN (rval);
+}
+
+/* the matrix holds one entry per (row, column): a list that becomes the
+ * entries of one column (row) must not name a row (column) twice */
+static int index_list_repeats (
+	int cnt,
+	int *ind,
+	int *repeated)
+{
+	int rval = 0;
+	int i;
+	int *sorted = 0;
+
+	*repeated = 0;
+	if (cnt < 2)
+		ILL_CLEANUP;
+
+	ILL_SAFE_MALLOC (sorted, cnt, int);
+	for (i = 0; i < cnt; i++)
+	{
+		sorted[i] = ind[i];
+	}
+	ILLutil_int_array_quicksort (sorted, cnt);
+	for (i = 1; i < cnt; i++)
+	{
+		if (sorted[i] == sorted[i - 1])
+		{
+			*repeated = 1;
+			break;
+		}
+	}
+
+CLEANUP:
+
+	ILL_IFFREE(sorted);
 	EG_RETURN (rval);
 }
 
